@@ -322,7 +322,7 @@ func (r *run) apply(i int, op hx.Op) (skip bool, err error) {
 			}
 		}
 	}
-	if r.cfg.AutoCompact {
+	if r.cfg.Auto() {
 		d.VerifWaitIdle()
 	}
 	return false, nil
